@@ -1,5 +1,5 @@
 """C10 — results are JSON-representable; ErrUndefined iff no value; EvalBytes agrees."""
-from ..engine import simple_run, classify
+from ..engine import simple_run, classify, outside_model
 from . import C09
 
 def undefined_iff(ck, part, res):
@@ -8,7 +8,7 @@ def undefined_iff(ck, part, res):
     byid = {c['id']: c for c in part}
     for cid, r in res.items():
         c = byid[cid]
-        if 'nulldoc' in c.get('tags', []) or r.get('compile', 'ok') != 'ok':
+        if 'nulldoc' in c.get('tags', []) or r.get('compile', 'ok') != 'ok' or outside_model(c, r):
             continue
         i, m = r.get('impl', ''), r.get('model') or ''
         if not m or m.startswith('X') or 'S756e6d6f64656c6c6564' in m or m.startswith('P') or i.startswith('P') or i == 'H':
